@@ -4,7 +4,10 @@ overload, arrivals coinciding with departures, mixed droppable/undroppable packe
 multi-hop routes, re-entrant replies through the same queue)."""
 import random
 
-BW = [0, 0, 1000, 1000, 5000, 64000, 100000, 1000000, 50000000, 1000000000]
+# the last row does not divide 10^9: the serialisation time size*1e9/bw is then not an integer and the
+# code's double computation really rounds (C09: "to within one clock tick of rounding")
+BW = [0, 0, 1000, 1000, 5000, 64000, 100000, 1000000, 50000000, 1000000000,
+      3000, 7000, 56000, 1234567, 33333333, 999999999]
 LAT = [0, 0, 1, 10, 1000, 1000000, 30000000, 10000000000]
 LEN = [0, 1, 10, 100, 100, 500, 1000, 1472, 1475, 9000, 65507]
 OVH = [20, 28, 40]
